@@ -12,4 +12,4 @@ Set Extraction KeepSingleton.
 Extraction NoInline store_results conv_results setup_out convert.
 Extraction "models_data.ml"
   mstep minit observe fixed as_found fname_str conv_spec vpt_code vpt_of_Z
-  p_alloc f_alloc m_alloc per_f sel put kstep nput ninit alloc_and_init type_name vd_alloc set_format_c f_new.
+  p_alloc f_alloc m_alloc per_f sel put kstep nput ninit alloc_and_init type_name vd_alloc set_format_c f_new ptr_null.
